@@ -98,6 +98,20 @@ def rand_l(rng) -> str:
     return "\n".join(rng.choice(pool) for _ in range(n)) + rng.choice(TAILS)
 
 
+def law_doc(rng) -> str:
+    """a document of the shape C06.list_law quantifies over: a tab-free, '>'-free document whose first line starts with a
+    non-blank, behind a list marker and 1-4 spaces, every other line (blank ones too) behind marker width + spaces"""
+    D = (rand_l(rng) if rng.random() < 0.5 else rand_mini(rng)).replace("\t", " ").replace(">", "")
+    ls = D.split("\n")
+    if ls and ls[-1] == "":
+        ls = ls[:-1]
+    ls = ls or ["x"]
+    ls[0] = ls[0].lstrip(" ") or "x"
+    mk, sp = rng.choice(["-", "*", "+", "1.", "7)", "12.", "123456789."]), rng.randint(1, 4)
+    W = len(mk) + sp
+    return "\n".join([mk + " " * sp + ls[0]] + [" " * W + x for x in ls[1:]]) + "\n"
+
+
 def tie_list(ctx: Ctx, drv: Driver, n: int) -> None:
     """the tie with block quotes and lists in the chain (driver `lblock`)"""
     from markdown_it import MarkdownIt
@@ -112,7 +126,7 @@ def tie_list(ctx: Ctx, drv: Driver, n: int) -> None:
         if i < len(fixed):
             src = fixed[i]
         else:
-            src = rand_l(rng) if k < 3 else (gens.struct_doc(rng, 2) if k == 3 else next(gens.doc_stream(rng, 1, 6)))
+            src = (law_doc(rng) if k == 2 else rand_l(rng)) if k < 3 else (gens.struct_doc(rng, 2) if k == 3 else next(gens.doc_stream(rng, 1, 6)))
         bits = rng.randrange(16) if i % 3 else 15
         mn = rng.choice([100, 100, 100, 20, 1, 0, 2, 3, 4])
         key = (bits, mn)
